@@ -75,6 +75,16 @@ def hDevice (m : HMode) (p rev : HRow) : HDev :=
       | .single => some rev
       | .multi => none }
 
+/-- NOT the shipped code: `single` applied to the leaf rows of one key **as it was before the
+repair 7d0d905** (huawei/vlandb.py:63 read `elif not multi and not multi_all:`), i.e. the whole-key
+reverse command was emitted whenever one line was removed and none added, unchanged sibling lines or
+not.  Everywhere else the old and the repaired rule coincide.  Only used to document what the repair
+changed (`C11_huawei_single_old_rule_false`). -/
+def hLeafSingleOldRule (rev : HRow) (old new : List HRow) : Except Err (List (Yield HRow Unit)) :=
+  let d := leafBuckets old new
+  if d.affected.isEmpty && d.removed.length = 1 && d.added.isEmpty then .ok [⟨false, rev, none⟩]
+  else hLeaf .single rev old new
+
 /-- a Cisco list: prefix and whether changes are explicit (`add` / `remove` keywords:
 `switchport trunk allowed vlan`) or not (`vlan`, `vlan group … vlan-list`) -/
 structure CDev where
